@@ -52,7 +52,7 @@ func (s logonState) FixMsgIn(session *session, msg *Message) (nextState sessionS
 			if session.EnableNextExpectedMsgSeqNum && msg.Body.Has(tagNextExpectedMsgSeqNum) {
 				// Our Logon told the counterparty which number we expect next (tag 789) and it resends from
 				// there on its own: a ResendRequest would be answered with a second, overlapping replay.
-				return resendState{resendRangeEnd: err.ReceivedTarget, messageStash: make(map[int]*Message)}
+				return resendState{resendRangeEnd: err.ReceivedTarget, messageStash: make(map[int]*Message), epoch: session.seqNumEpoch.Load()}
 			}
 			if nextState, tooHighErr = session.sendResendRequest(err.ExpectedTarget, err.ReceivedTarget); tooHighErr != nil {
 				return shutdownWithReason(session, msg, false, tooHighErr.Error())
